@@ -7,6 +7,7 @@ import (
 	"encoding/json"
 	"errors"
 	"fmt"
+	"github.com/nspcc-dev/neo-go/pkg/vm/stackitem"
 	"io"
 	"os"
 	"path/filepath"
@@ -168,7 +169,8 @@ func NewWorldOnStoreDry(low storage.Store) bool {
 }
 
 type dumpCase struct {
-	Contract string
+	Contract  string
+	NoBallots bool // the stored ballot list is emptied first (planted write, not replayable on blocks)
 }
 
 type DumpGrid struct {
@@ -202,7 +204,10 @@ func (g *DumpGrid) Cases(string) []GridCase {
 	}
 	sort.Strings(names)
 	for _, n := range names {
-		out = append(out, GridCase{Name: fmt.Sprintf("%s of dump %s", n, d.ID), Data: dumpCase{n}})
+		out = append(out, GridCase{Name: fmt.Sprintf("%s of dump %s", n, d.ID), Data: dumpCase{Contract: n}})
+		// the same storage once the recorded votes have run out (on the young chain of this check the recorded
+		// ballot heights would stay "fresh" for ever and the migration would never run): ballot list emptied
+		out = append(out, GridCase{Name: fmt.Sprintf("%s of dump %s, ballots run out", n, d.ID), Data: dumpCase{Contract: n, NoBallots: true}})
 	}
 	return out
 }
@@ -341,6 +346,11 @@ func (g *DumpGrid) Eval(x *Exec, root *Node, gc GridCase) GridResult {
 		if !newSafe[fmt.Sprintf("%s/%d", name, n)] {
 			return false
 		}
+		if name == "innerRingList" {
+			// not contract data any more: with Notary the list is the chain's NeoFSAlphabet role (RoleManagement),
+			// which a contract dump does not carry
+			return false
+		}
 		return dc.State.Manifest.ABI.GetMethod(name, n) != nil
 	}
 	for _, m := range dc.State.Manifest.ABI.Methods {
@@ -446,6 +456,17 @@ func (g *DumpGrid) Eval(x *Exec, root *Node, gc GridCase) GridResult {
 			}
 		}
 		return out
+	}
+	if c.NoBallots {
+		si := root.L.GetStorageItem(dc.State.ID, []byte("ballots"))
+		if si == nil {
+			return GridResult{Outcome: "no-ballots-stored"}
+		}
+		empty, _ := stackitem.Serialize(stackitem.NewArray(nil))
+		layer := root.L.GetPrivate()
+		layer.PutStorageItem(dc.State.ID, []byte("ballots"), empty)
+		root = &Node{L: layer, H: root.H, TS: root.TS, M: root.M}
+		x = &Exec{W: w} // nothing of this case is recorded: a chain cannot reproduce the planted write
 	}
 	before := read(root)
 	// ---- the update, as the committee ----
